@@ -464,6 +464,18 @@ def fresh_view(cfg, model, obs, user):
     """history-freedom oracle: a brand-new pair + optimizer put directly into the current settings, compiled once"""
     from taurex.optimizer.optimizer import Optimizer
     mt, ot = settings_of(model, obs)
+    # the fresh pair is built in the collection order of the configuration, not in whatever order the used object's
+    # table has now: a history that re-orders (or drops an entry of) the shared table must show up as a difference between
+    # the used optimizer and the fresh one, not as an assertion of ours
+    def canon(tab, ref):
+        names = [p[0] for p in ref]
+        if sorted(names) == sorted(t[0] for t in tab):
+            return sorted(tab, key=lambda t: names.index(t[0]))
+        return tab
+    if cfg.get('model'):
+        mt = canon(mt, cfg['model'])
+    if cfg.get('obs'):
+        ot = canon(ot, cfg['obs'])
     cfg2 = dict(cfg, model=mt, obs=ot, dmodel=derived_view(model), dobs=derived_view(obs))
     m2, o2 = make_pair(cfg2)
     opt2 = Optimizer('fresh', observed=o2, model=m2)
